@@ -29,10 +29,11 @@ ASSUMPTIONS = ["threads are only switched at Python function entries inside src/
 DECIDING = ["schedules_run", "preemptions_taken", "thread_results_compared", "shared_state_ops_seen",
             "cold_start_schedules"]
 FLOOR = {"quick": 1500, "thorough": 20000}
-EXHAUSTIVE_NOTE = {"quick": "every single-preemption schedule of pair (col_a, col_b), both directions",
+EXHAUSTIVE_NOTE = {"quick": "every single-preemption schedule of pair (col_a, col_b), both directions (pair pal12_a, pal12_b: every third boundary)",
                    "thorough": "every single-preemption schedule of 5 pairs, both directions"}
 
-PAIRS = [("col_a", "col_b"), ("col_a", "multi_a"), ("figure", "col_b"), ("pageby", "multi_b"), ("raising", "col_a")]
+PAIRS = [("col_a", "col_b"), ("pal12_a", "pal12_b"), ("col_a", "multi_a"), ("figure", "col_b"), ("pageby", "multi_b"),
+         ("raising", "col_a"), ("bcol_a", "bcol_b"), ("paged_s8", "paged_s14")]
 TRIPLES = [("col_a", "col_b", "multi_a"), ("figure", "pageby", "col_b"), ("col_a", "raising", "multi_b")]
 
 
@@ -42,11 +43,13 @@ def exhaustive(tier):
 
 def plan(tier, seed):
     descs = []
-    pairs = PAIRS[:1] if tier == "quick" else PAIRS
+    pairs = PAIRS[:2] if tier == "quick" else PAIRS
     k = 12 if tier == "quick" else 13
     for pi, pair in enumerate(pairs):
-        for i in range(k):
-            descs.append({"kind": "single", "docs": list(pair), "lo": i, "step": k, "timeout": 1800})
+        # quick: the first pair at every call boundary, the second at every third one
+        stride = 3 if (tier == "quick" and pi > 0) else 1
+        for i in range(k // stride):
+            descs.append({"kind": "single", "docs": list(pair), "lo": i * stride, "step": k, "timeout": 1800})
     cold = COLD_PAIRS[:2] if tier == "quick" else COLD_PAIRS
     for pair in cold:
         for i in range(5):
